@@ -307,6 +307,45 @@ impl Store {
 }
 
 
+/// Verification hook: read-only dump of the dependency store.
+#[cfg(feature = "gohla_pie_verif")]
+impl Store {
+  pub fn verif_dump(&self) -> Vec<crate::verif::VerifNode> {
+    use crate::verif::{VerifEdge, VerifNode};
+    let key_of = |node: &Node| -> (bool, String) {
+      match self.graph.get_node_data(node) {
+        Some(NodeData::Task { task, .. }) => (true, format!("{:?}", task)),
+        Some(NodeData::Resource(resource)) => (false, format!("{:?}", resource)),
+        None => (false, String::from("<missing>")),
+      }
+    };
+    let mut nodes: Vec<_> = self.graph.iter_unsorted().collect();
+    nodes.sort_by_key(|(rank, _)| *rank);
+    let mut result = Vec::with_capacity(nodes.len());
+    for (rank, node) in nodes {
+      let (is_task, key) = key_of(&node);
+      let output = match self.graph.get_node_data(&node) {
+        Some(NodeData::Task { output: Some(output), .. }) => Some(format!("{:?}", output)),
+        _ => None,
+      };
+      let outgoing = self.graph.get_outgoing_edges(&node).map(|(dst, dependency)| {
+        let (target_is_task, target) = key_of(dst);
+        let (kind, checker, stamp) = match dependency {
+          Dependency::ReservedRequire => ("reserved", String::new(), String::new()),
+          Dependency::Require(d) => ("require", format!("{:?}", d.checker()), format!("{:?}", d.stamp())),
+          Dependency::Read(d) => ("read", format!("{:?}", d.checker()), format!("{:?}", d.stamp())),
+          Dependency::Write(d) => ("write", format!("{:?}", d.checker()), format!("{:?}", d.stamp())),
+        };
+        VerifEdge { target_is_task, target, kind, checker, stamp }
+      }).collect();
+      let incoming = self.graph.get_incoming_edge_nodes(&node).map(|src| key_of(src).1).collect();
+      result.push(VerifNode { is_task, key, output, rank: rank as usize, outgoing, incoming });
+    }
+    result
+  }
+}
+
+
 #[cfg(test)]
 mod test {
   use std::path::PathBuf;
